@@ -480,6 +480,14 @@ func TestReplayC09(t *testing.T) {
 					fails = append(fails, r.Note+": "+bad[0].String())
 				}
 			}
+		case "TestC09Kill":
+			var c killCase
+			if json.Unmarshal(r.Case, &c) == nil {
+				if bad := rec.Filter(runKillCase(rec, &c)); len(bad) > 0 {
+					vkit.SaveViolation("C09", r.Test, &c, bad, nil)
+					fails = append(fails, r.Note+": "+bad[0].String())
+				}
+			}
 		case "TestC09RoundTrip":
 			var c rtCase
 			if json.Unmarshal(r.Case, &c) == nil {
